@@ -70,7 +70,7 @@ QUICK_STDLIB = ["RoundRobinArbiter_4", "RoundRobinArbiterEn_3", "Mux_8_4", "Mux_
 # against the SystemVerilog text, second opinion for signed loop variables): fewer expression designs,
 # more structural ones
 GEN_C12 = {
-    "quick": [("unit", 80), ("ops", 16), ("expr", 12), ("ctrl", 12), ("loopidx", 10), ("struct", 18), ("hier", 10),
+    "quick": [("unit", 60), ("ops", 12), ("expr", 10), ("ctrl", 12), ("loopidx", 10), ("struct", 18), ("hier", 10),
               ("seq", 8), ("misc", 12)],
     "thorough": [("unit", 320), ("ops", 300), ("expr", 240), ("ctrl", 200), ("loopidx", 100), ("struct", 180),
                  ("hier", 120), ("seq", 100), ("misc", 120)],
@@ -93,7 +93,7 @@ def corpora(tier, pid=PID):
     if tier == "quick":
         std = [n for n in QUICK_STDLIB if n in std_all]
         cfg = {"explicit_module_name": "RenamedTop"}
-        return [("repo", [("repo", n) for n in names], 1, 8),
+        return [("repo", [("repo", n) for n in names], 1, 8 if pid == PID else 6),
                 ("stdlib", [("stdlib", n) for n in std] + [("stdlib", n, cfg) for n in std[:4]], 1, 12),
                 ("gen", gen_specs(tier, pid), 1, 6)]
     cfg = {"explicit_module_name": "RenamedTop", "explicit_file_name": "renamed_file.v"}
